@@ -410,8 +410,8 @@ def judge(data, st, case):
                                                    trees.snapshot(t))), case)
 
     # the tree carries what the streaming reader yielded
-    if t1 is not None and err is None and recs:
-        want = []
+    if t1 is not None and err is None:
+        want = [] if recs else [('diffx', None)]
 
         for r in recs:
             kind = spec.kind_of(r['section'])
